@@ -1,6 +1,7 @@
 package main
 
 import (
+	"strconv"
 	"fmt"
 	"reflect"
 	"sort"
@@ -153,6 +154,13 @@ type c12gen struct {
 var c12names = []string{"a", "b", "c", "z", "g1"}
 var c12set = c12names[:4]
 
+var c12wrappers = [][2]string{
+	{"{% if 1 %}", "{% endif %}"}, {"{% if 0 %}never{% else %}", "{% endif %}"}, {"{% if 0 %}never{% elif 1 %}", "{% else %}never{% endif %}"},
+	{"{% ifequal 1 1 %}", "{% endifequal %}"}, {"{% ifnotequal 1 1 %}never{% else %}", "{% endifnotequal %}"},
+	{"{% autoescape on %}", "{% endautoescape %}"}, {"{% autoescape off %}", "{% endautoescape %}"},
+	{"{% spaceless %}", "{% endspaceless %}"}, {"{% filter cut:\"~\" %}", "{% endfilter %}"},
+}
+
 func (g *c12gen) lit() string {
 	return g.r.Pick([]string{"7", "8", `"x"`, `"y"`, "a", "b", "c", "g1", "z"})
 }
@@ -182,7 +190,8 @@ func (g *c12gen) node(d int) snode {
 	case 1:
 		return snode{k: "for", name: r.Pick(c12set), body: g.nodes(d - 1)}
 	case 2:
-		return snode{k: "if", body: g.nodes(d - 1)}
+		// constructs that are not scopes: what is bound inside stays bound after them
+		return snode{k: "if", val: fmt.Sprint(r.Intn(len(c12wrappers))), body: g.nodes(d - 1)}
 	case 3:
 		if g.depth > 0 || len(g.macs) >= 2 {
 			return snode{k: "probe", name: r.Pick(c12names)}
@@ -238,7 +247,12 @@ func c12Src(ns []snode, macs map[string]snode) string {
 		case "for":
 			sb.WriteString("{% for " + n.name + " in two %}" + c12Src(n.body, macs) + "{% endfor %}")
 		case "if":
-			sb.WriteString("{% if 1 %}" + c12Src(n.body, macs) + "{% endif %}")
+			w := c12wrappers[0]
+			if n.val != "" {
+				i, _ := strconv.Atoi(n.val)
+				w = c12wrappers[i]
+			}
+			sb.WriteString(w[0] + c12Src(n.body, macs) + w[1])
 		case "forempty":
 			sb.WriteString("{% for " + n.name + " in nothing_here %}never{% empty %}" + c12Src(n.body, macs) + "{% endfor %}")
 		case "macro":
